@@ -5,6 +5,7 @@ Only property theorems live here (helpers: Proofs/NackGen.lean, Proofs/NackGenIn
 import Interceptor.Props.C03
 import Interceptor.Proofs.NackGen
 import Interceptor.Proofs.NackGenIndep
+import Interceptor.Proofs.NackLimit
 set_option linter.unusedVariables false
 namespace Interceptor.ReceiveLog
 open Interceptor
@@ -36,16 +37,10 @@ theorem tick_requests_subset_missing (cfg : Cfg) (hs : SizeOK cfg.size)
 
 /-! ### the NACK limit -/
 
-/-- T4 `_partial` (NACK limit): with `maxNacksPerPacket = max > 0`, over ANY interleaving of arrivals and
-ticks (any number of ticks: the counter saturates, F-03), a number that is missing at every tick of the
-run is requested at most `max` times (at most `max − counter` when it has been requested before).
-Missing for the full statement "no *packet* is requested more than `max` times": the step from the
-16-bit number to the packet — that an unwrapped number which stops being missing (received, or left
-the window) never becomes missing again, so that the requests of one packet all fall into one such run;
-a later packet with the same 16-bit number (one 2^16 cycle on) is a different packet and gets its
-own `max` requests because the counter is pruned as soon as the number is not missing at a tick
-(F-03b). -/
-theorem nack_limit_partial (cfg : Cfg) (h0 : 0 < cfg.max) (hmax : cfg.max < 65536) (y : Nat)
+/-- T4, lemma (the counter argument on 16-bit numbers, used by `nack_limit`): with `maxNacksPerPacket = max > 0`,
+over ANY interleaving of arrivals and ticks, a number that is missing at every tick of the run is requested
+at most `max − counter` times. -/
+theorem nack_limit_while_missing (cfg : Cfg) (h0 : 0 < cfg.max) (hmax : cfg.max < 65536) (y : Nat)
     (ops : List SOp) (st : Stream) (hc : cnt st.counts y ≤ cfg.max)
     (hm : missingAtEveryTick cfg y st ops) :
     reqCount cfg y st ops + cnt st.counts y ≤ cfg.max := by
@@ -64,7 +59,7 @@ theorem nack_limit_partial (cfg : Cfg) (h0 : 0 < cfg.max) (hmax : cfg.max < 6553
         + cnt st.counts y ≤ cfg.max
       omega
 
-/-- non-vacuity of `nack_limit_partial`: size 64, max 2, arrivals 10 and 12, then ticks: 11 is missing at
+/-- non-vacuity of `nack_limit_while_missing`: size 64, max 2, arrivals 10 and 12, then ticks: 11 is missing at
 every tick and the counter starts at 0, so the hypotheses are met. -/
 example :
     let cfg : Cfg := { size := 64, skip := 0, max := 2 }
@@ -73,6 +68,44 @@ example :
   refine ⟨⟨by decide, by decide, by decide, trivial⟩, ?_, by decide⟩
   show cnt (∅ : Counts) 11 ≤ 2
   rw [cnt_empty]; omega
+
+/-- spec side of T4: under every arrival `first` is fixed, `hi` only moves forward, and a packet that is
+gone for good (`Gone`: at or before the first packet, behind the window floor `hi − size`, or received)
+stays gone — it can never become missing again. -/
+theorem gone_for_good (size skip : Nat) (a a' : NackSpec.Stream) (q : Nat)
+    (h : NackSpec.arrive size (some a) q = some a') (x : Int) (hg : Gone size a x) :
+    Gone size a' x ∧ ¬ MissingU size skip a' x :=
+  ⟨(arrive_mono size a a' q h).2.2 x hg, fun hm => missingU_not_gone hm ((arrive_mono size a a' q h).2.2 x hg)⟩
+
+/-- ★ T4 (NACK limit, per PACKET): with `maxNacksPerPacket = max > 0`, over ANY interleaving of arrivals
+(any 16-bit numbers) and ticks (any number of them) on a freshly bound stream, every packet — identified
+by its UNWRAPPED number `x` under the specification's unwrapping, counted while it is inside the window
+`(hi − size, hi]` — is requested at most `max` times in total.  (Aliasing across a 2^16 cycle is covered:
+the window is at most 2^15 wide, so inside the window the 16-bit value determines the packet.) -/
+theorem nack_limit (cfg : Cfg) (hs : SizeOK cfg.size) (h0 : 0 < cfg.max) (hmax : cfg.max < 65536)
+    (ops : List SOp) (hq : ∀ q, SOp.arrive q ∈ ops → q < 65536) (x : Int) :
+    reqCountU cfg x { log := new cfg.size, counts := ∅ } none ops ≤ cfg.max :=
+  reqCountU_fresh cfg rfl hs h0 hmax x ops hq _ rfl (fun y => by rw [cnt_empty]; omega)
+
+/-- T4, refined: from any state related to the specification (`R`) with counters within the limit, a packet
+that is gone for good is never requested again, and a missing packet at most `max − counter` more times. -/
+theorem nack_limit_from (cfg : Cfg) (hs : SizeOK cfg.size) (h0 : 0 < cfg.max) (hmax : cfg.max < 65536)
+    (ops : List SOp) (hq : ∀ q, SOp.arrive q ∈ ops → q < 65536) (x : Int)
+    (st : Stream) (a : NackSpec.Stream) (lcU : Int) (h : R cfg.size st.log a lcU)
+    (hC : ∀ y, cnt st.counts y ≤ cfg.max) :
+    (Gone cfg.size a x → reqCountU cfg x st (some a) ops = 0) ∧
+    (MissingU cfg.size cfg.skip a x → reqCountU cfg x st (some a) ops + cnt st.counts (sq x) ≤ cfg.max) ∧
+    reqCountU cfg x st (some a) ops ≤ cfg.max :=
+  reqCountU_started cfg rfl hs h0 hmax x ops hq st a lcU h hC
+
+/-- non-vacuity of `nack_limit`: size 64, max 2, arrivals 10 and 12 (11 is missing), five ticks, then 11
+arrives, more ticks, then the same 16-bit number is lost again one full cycle later. -/
+example :
+    reqCountU { size := 64, skip := 0, max := 2 } 11 { log := new 64, counts := ∅ } none
+      [.arrive 10, .arrive 12, .tick, .tick, .tick, .tick, .tick, .arrive 11, .tick,
+       .arrive 30000, .arrive 60000, .arrive 10, .arrive 12, .tick, .tick, .tick] ≤ 2 :=
+  nack_limit { size := 64, skip := 0, max := 2 } ⟨by decide, by decide, by decide⟩ (by decide) (by decide) _
+    (by intro q hq; simp at hq; omega) 11
 
 /-! ### independence of streams -/
 
